@@ -58,6 +58,7 @@ def enumerations(tier):
 def check(case, stats):
     lib.run_primes(case.get("primes"))
     pred, ref, cfg = c01.resolve(case)
+    cfg["imetrics"] = PM.METRICS  # the mirror relation is stated over all four metrics
     exps, complete, info = PM.expected_results(pred, ref, cfg)
     unique = complete and len(exps) == 1
     ev = lib.evaluator(cfg)
